@@ -41,3 +41,11 @@ Proof. exact c12_any_history. Qed.
 Check C12_any_history : forall c fs, ucase_wf c = true ->
   c12_spec_ok c (Ok (unit_recv (uc_kind c) (uc_u c) (ctx_after (uc_kind c) (uc_u c) fs) (uc_frame c))) = true.
 Print Assumptions C12_any_history.
+
+(* the premise of abstracting from time in this property's model: the code it models waits, polls and gives up
+   exactly where the model says (primitive codes in Proofs/W_*.v); re-extracted from the source on every run *)
+Require Import GV.Gen.Consts GV.Proofs.W_engine GV.Proofs.W_hydraulic.
+Theorem C12_time_abstraction : waits_engine = (@nil Z) /\ waits_hydraulic = (@nil Z).
+Proof. exact (conj w_engine w_hydraulic). Qed.
+Check C12_time_abstraction : waits_engine = (@nil Z) /\ waits_hydraulic = (@nil Z).
+Print Assumptions C12_time_abstraction.
